@@ -6,7 +6,7 @@
 //	ops:     P <hexhead>:<sym>.<sym>...  -> -         (a production of the input grammar; sym = t<hex> | n<hex>)
 //	         DEL|UNIT|UNREACH|CYCLES|ELR|LF|CNF|START|TERM|BIN
 //	             -> ok T=.. N=.. S=.. P=<prod>,<prod>.. eq=<t|f> v=<t|f> [cnf=<t|f>] [order=<hex>,..]
-//	             -> PANIC:<reason> | HANG | INVALID | LARGE n=<productions> eq=<t|f>   (output too large to compare)
+//	             -> PANIC:<reason> | HANG | TIMEOUT (ELR only: exponential case cut by the watchdog) | INVALID | LARGE n=<productions> eq=<t|f>   (output too large to compare)
 //	         NULLABLE -> ok N=<hex>,..
 //	         PBT|LR0|LR1|LR0K|LR1K -> ok eq=<t|f>
 //	         SUFFIXES -> ok prime=<hex>,.. alpha=.. numeric=..
@@ -204,6 +204,12 @@ func b(x bool) string {
 func transform(g *grammar.CFG, op string) string {
 	extra := ""
 	res := transform1(g, op, &extra)
+	if op == "ELR" && res == "HANG" {
+		// Paull's algorithm is exponential in the worst case even on small cycle-free grammars: the
+		// watchdog firing here is a time-out of this harness, not a hang (C08/C09 do not bound time)
+		hung--
+		return "TIMEOUT" + extra
+	}
 	if strings.HasPrefix(res, "PANIC") || res == "HANG" {
 		// keep what was observed before the failure (the order used by EliminateLeftRecursion)
 		return res + extra
@@ -793,7 +799,7 @@ func main() {
 	case "random":
 		n := 1000
 		if thorough {
-			n = 6000
+			n = 4000
 		}
 		for i := 0; i < n; {
 			if emit(w, randomGrammar(r), allOps) {
@@ -803,7 +809,7 @@ func main() {
 	case "adversarial":
 		n := 480
 		if thorough {
-			n = 2000
+			n = 1500
 		}
 		adversarial(w, r, n, allOps)
 	}
